@@ -361,3 +361,33 @@ Theorem C12_values_for_path_code_is_model : forall pf st m path subkeys, g_field
   run_ValuesForPath pf st m path subkeys = values_for_path pf (g_fieldSep st) (VMap m) path subkeys.
 Proof. exact run_ValuesForPath_eq. Qed.
 Print Assumptions C12_values_for_path_code_is_model.
+
+(* ---- Map.NewMap itself (newmap.go), translated from the current sources: the key-pair loop - skipping, splitting at ':', the
+   validation errors returned TOGETHER with the Map built so far, ValuesForPath on the old key, the trailing-dot rule on the new
+   key - is the model [new_map] the theorems above are stated with, for callees that behave like ValuesForPath and addNewVal;
+   with the translated ValuesForPath (GenProofs/PureG30.v).  addNewVal itself (a cursor walking down the Map it builds) is tied by
+   the correspondence run only. *)
+From Mxj Require Import Gen.Setters_gen Gen.PureSupport Gen.Pure_gen GenProofs.PureG5 GenProofs.PureG30.
+
+Theorem C12_new_map_code_is_model_gen : forall pf sep
+    (vfp : entries -> str -> list str -> res (list value))
+    (anv : entries -> list str -> list value -> entries),
+  (forall m p, vfp m p [] = values_for_path pf sep (VMap m) p []) ->
+  (forall n path oldVal, anv n path oldVal = add_new_val path (match oldVal with [x] => x | _ => VList oldVal end) n) ->
+  forall st mv keypairs,
+    fn_NewMap vfp anv st mv keypairs = new_map_ctl (new_map pf sep (VMap mv) keypairs).
+Proof. exact new_map_code_is_model_gen. Qed.
+Print Assumptions C12_new_map_code_is_model_gen.
+
+Theorem C12_new_map_code_is_model : forall pf st mv keypairs,
+  g_fieldSep st <> [] ->
+  fn_NewMap (run_ValuesForPath pf st) run_addNewVal st mv keypairs
+  = new_map_ctl (new_map pf (g_fieldSep st) (VMap mv) keypairs).
+Proof. exact new_map_code_is_model. Qed.
+Print Assumptions C12_new_map_code_is_model.
+
+Theorem C12_new_map_code_no_crash : forall pf st mv keypairs,
+  g_fieldSep st <> [] ->
+  fn_NewMap (run_ValuesForPath pf st) run_addNewVal st mv keypairs <> Crash.
+Proof. exact new_map_code_no_crash. Qed.
+Print Assumptions C12_new_map_code_no_crash.
